@@ -17,6 +17,9 @@ def gen_pattern(rng, base=None):
         for _ in range(rng.randrange(1, 4)):
             p[rng.randrange(len(p))] = "*"
         return "".join(p)
+    if rng.random() < 0.06:
+        # patterns at the ends of the value range / catch-alls: they match the PTEs 0xFFFFFFFF, 0x00000000, everything
+        return rng.choice(["********", "FFFF****", "F*******", "FFFFFFFF", "0000****", "00000000", "*******F", "FFFFFFF*"])
     p = [rng.choice(HEX) for _ in range(8)]
     if rng.random() < 0.5:
         p[0] = "E"                                      # error class
@@ -89,6 +92,8 @@ def gen_ilog(rng, table, n=None):
         ts = rng.choice([0, 1, 59, 60, 3599, 3600, 0xFFFE, 0xFFFF, 65000]) if rng.random() < 0.4 else rng.randrange(0x10000)
         seq = rng.choice([0, 1, 0xFFFF, rng.randrange(0x10000)])
         pte = pte_for(rng, table)
+        if not out and rng.random() < 0.12:
+            pte = rng.choice([0xFFFFFFFF, 0xFFFFFFFF, 0, 0xFFFFFFFE, 0x80000000, 0x7FFFFFFF])     # extreme value as the FIRST entry
         if rng.random() < 0.05:
             ts, seq = 0, 0        # zero timestamp and sequence with a non-zero PTE is still an entry
         out += struct.pack(">HHI", ts, seq, pte)
@@ -111,6 +116,13 @@ def gen_strings(rng, n=None):
             h = rng.choice(out)[0]                                           # duplicate hash
         elif out and r < 0.45:
             h = rng.choice(out)[0] % 100000 + 100000 * rng.randrange(0, 40000)   # partial collision
+        elif r < 0.53:
+            # a hash that does not fit into 32 bits (the file format is decimal text): never an exact match, but it takes
+            # part in the modulo-100000 rule like any other
+            base = rng.choice(out)[0] if out and rng.random() < 0.7 else rng.randrange(1 << 32)
+            h = base % 100000 + 100000 * rng.randrange(42950, 10 ** 7)
+        elif r < 0.56:
+            h = rng.choice([0, 99999, 100000, 0xFFFFFFFF, 0x80000000])
         else:
             h = rng.randrange(1 << 32)
         out.append((h, rng.choice(TRACE_MSGS), "file%d.cpp(%d)" % (k % 5, rng.randrange(1, 2000))))
@@ -124,7 +136,10 @@ def model_strings(strings):
 def hash_for(rng, strings):
     r = rng.random()
     if strings and r < 0.5:
-        return rng.choice(strings)[0]
+        h = rng.choice(strings)[0]
+        if h < (1 << 32):
+            return h
+        return h % 100000 + 100000 * rng.randrange(0, 42949)      # a wide hash can only be met modulo 100000
     if strings and r < 0.8:
         h = rng.choice(strings)[0] % 100000 + 100000 * rng.randrange(0, 42949)
         return h & 0xFFFFFFFF
